@@ -126,7 +126,7 @@ theorem executeE_verdict (H : Crypto) (flags : Nat) (ctx : Option Ctx) (unlock l
           | byReturn s1 =>
             simp only
             cases hl : p.lock with
-            | nil => rfl
+            | nil => exact finalE_fst p.env _ _ _
             | cons o2 r2 =>
               simp only
               rw [← hl]
@@ -374,13 +374,7 @@ theorem skeleton_in_lifecycle (p2sh : Bool) (H : Crypto) (flags : Nat) (ctx : Op
         | byReturn s1 =>
           simp only
           cases hl : p.lock with
-          | nil =>
-            simp only
-            unfold lifecycleOk stopE
-            simp only
-            have : ('[' :: ev ++ ['S', 's']) ++ [']', '!'] = (['['] ++ ev) ++ ['S', 's', ']', '!'] := by simp
-            rw [this, (hopen.trans hr)]
-            exact ends_pc p2sh
+          | nil => exact finalE_ok p2sh p.env s1 _ (hopen.trans hr)
           | cons o2 r2 =>
             simp only
             exact runLockE_ok p2sh p.env p ctx.isNone s1.ds s1 _ 7 (Or.inr rfl)
